@@ -86,16 +86,25 @@ def _has_fun(w, n):
 
 
 def _ack_job(job):
-    shape, earlier = job if isinstance(job, tuple) else (job, None)
+    shape, earlier = job[:2] if isinstance(job, tuple) else (job, None)
+    chained = isinstance(job, tuple) and len(job) > 2
 
     def call(w, it, f):
         wk = w.new_walker("pysmt.rewritings.Ackermannizer", w.env)
+        if chained:
+            # incremental use: the input of a second Ackermannizer object contains the result of an earlier one
+            r1 = it.call(it.getattr(wk, "do_ackermannization"), [proc.build_shape(w, earlier.t)])
+            f2 = w.app("And", r1, f)
+            wk2 = w.new_walker("pysmt.rewritings.Ackermannizer", w.env)
+            return ("chained", f2, it.call(it.getattr(wk2, "do_ackermannization"), [f2]))
         if earlier is not None:
             # the same instance has served another formula (sharing applications with this one) before
             it.call(it.getattr(wk, "do_ackermannization"), [proc.build_shape(w, earlier.t)])
         return it.call(it.getattr(wk, "do_ackermannization"), [f])
 
     def post(w, f, r, facts):
+        if isinstance(r, tuple) and len(r) == 3 and r[0] == "chained":
+            f, r = r[1], r[2]
         if not w.is_node(r):
             return None
         leak = _has_fun(w, r)
@@ -135,6 +144,8 @@ def _ack_job(job):
         return proc.ProcResult(shape, "valid", "%d interpretations" % n, rs)
     res = proc.run_proc(shape, call, post=post)
     tag = repr(shape) if earlier is None else "%s on an instance that served %s before" % (repr(shape), repr(earlier))
+    if chained:
+        tag = "(result for %s) & %s on a second instance" % (repr(earlier), repr(shape))
     return [("Ackermannizer", tag, r.kind, str(r.detail), r.result) for r in res]
 
 
@@ -168,6 +179,41 @@ def ack_shapes():
     return [Shape(t) for t in sh]
 
 
+def ack_named_shapes():
+    """input symbols spelled like the constants Ackermannization introduces (same sort, another sort); each is decided
+    in an environment of its own (the same name carries different sorts in different shapes)"""
+    x, y = S("x", BV1), S("y", BV1)
+
+    def f(t):
+        return ("fun", "f", BV1, (BV1,), t)
+
+    def pb(t):
+        return ("fun", "p", BOOL, (BV1,), t)
+    sh = [("And", S("ack0"), ("Not", pb(x))), ("And", ("Iff", S("ack0"), pb(x)), ("Iff", S("ack1"), ("Not", pb(y))), S("ack0"), S("ack1")),
+           ("And", ("Equals", S("ack0", BV1), x), ("Not", ("Equals", f(x), S("ack1", BV1)))),
+           ("And", ("LT", S("ack0", INT), S("ack1", INT)), ("Not", ("Equals", f(x), f(y)))),
+           ("And", S("FV0"), S("ack_0"), ("Not", pb(x)))]
+    return [Shape(t) for t in sh]
+
+
+def chained_pairs():
+    x, y = S("x", BV1), S("y", BV1)
+
+    def f(t):
+        return ("fun", "f", BV1, (BV1,), t)
+
+    def g2(s_, t_):
+        return ("fun", "g2", BV1, (BV1, BV1), s_, t_)
+
+    def pb(t):
+        return ("fun", "p", BOOL, (BV1,), t)
+    pairs = [(("And", ("Not", pb(x)), pb(y)), ("And", ("Equals", g2(x, y), x), ("Not", ("Equals", g2(y, x), x)))),
+             (("Not", ("Equals", f(x), f(y))), ("And", pb(x), ("Not", pb(y)))),
+             (("Not", ("Equals", f(x), f(y))), ("Not", ("Equals", g2(x, y), g2(y, x)))),
+             (("And", pb(x), ("Not", pb(y))), ("And", pb(x), ("Not", pb(y))))]
+    return [(Shape(b), Shape(a), "chained") for a, b in pairs]
+
+
 def run(ctx):
     if not ctx.want("R1"):
         return
@@ -188,7 +234,7 @@ def run(ctx):
     rs3 = ctx.rule("R3d", "Ackermannization: no application left; models correspond (functions over 1-bit domains)")
     ash = ack_shapes()
     outs_a = parallel_map(_ack_job, [(sh, None) for sh in ash] + [(sh, ash[(i + 1) % len(ash)]) for i, sh in enumerate(ash)] +
-                          [(sh, ash[0]) for sh in ash[1:6]])
+                          [(sh, ash[0]) for sh in ash[1:6]] + chained_pairs() + [(sh, None) for sh in ack_named_shapes()])
     for which, outs_, rule in ((None, outs, rs), (None, outs_a, rs3)):
         for res in outs_:
             for name, shape, kind, detail, result in res:
